@@ -49,6 +49,11 @@ var checks = map[string]func(*core.Ctx){
 		session.HammerStage(c, "state after concurrent requests differs from the specification", 6, 150, 1)
 		c.Finish()
 	},
+	"XSURVEY": func(c *core.Ctx) {
+		c.Level = "model_checking"
+		session.ClusterStage(c, "cluster with answered surveys differs from the one-broker specification at quiescence", 2, true, []string{"presence"}, 20, 14)
+		c.Finish()
+	},
 	"XCLUSTER": func(c *core.Ctx) {
 		c.Level = "model_checking"
 		session.ClusterStage(c, "cluster differs from the one-broker specification at quiescence", 2, false, []string{"pubsub", "presence", "ending"}, 30, 14)
